@@ -265,6 +265,16 @@ def run_grammar(spec, prop, R, tier, batch, stats):
         quick = tier == "quick"
         mind = ctx.mind
         if prop == "C03":
+            # "for every grammar": also one that has seen OTHER grammars being extracted over subsets of its classes
+            # (the analysis tables belong to the Grammar object; nothing else in the process may rewrite them)
+            from geneticengine.grammar.grammar import extract_grammar as _extract
+            for k in range(len(b.considered)):
+                subset = [c for i, c in enumerate(b.considered) if i != k]
+                try:
+                    with time_limit(5):
+                        _extract(subset, b.start)
+                except Exception:
+                    pass
             depths = [mind - 1, mind, mind + 1, mind + 2, mind + 4] if quick else \
                 [mind - 1, mind, mind + 1, mind + 2, mind + 3, mind + 4, mind + 6]
             for d in depths:
